@@ -150,6 +150,7 @@ type JLOpts struct {
 	Slow       bool   // random scheduler: kubelets are slow to start containers (tasks stay Pending for long)
 	Flaky      bool   // random scheduler: nodes go down often
 	Delivered  bool   // the Job's add event is already delivered when the run starts (initial state of spec/JobLife.tla)
+	ForeignLag bool   // the foreign Pod's add event is still undelivered when the run starts (the controller can hit it before its cache shows it)
 	Hold       bool   // the Job is submitted with another controller's finalizer (and without furiko's: the webhook adds that one)
 	ForeignBy  string // controller owner of the foreign Pod: "" (ReplicaSet) | "job" (another Job object of the same name) | "none"
 }
@@ -264,7 +265,9 @@ func NewJL(o JLOpts, t *sw.Tracer, run int) *JL {
 		}
 	}
 	j.build()
-	for j.W.Inf.Pods.Deliver() {
+	if !(o.Foreign && o.ForeignLag) {
+		for j.W.Inf.Pods.Deliver() {
+		}
 	}
 	if o.Delivered {
 		for j.W.Inf.Jobs.Deliver() {
@@ -930,7 +933,7 @@ func randJLOpts(rng *rand.Rand, skew, fresh bool) JLOpts {
 	o := JLOpts{N: 1 + rng.Intn(3), MaxAtt: 1 + rng.Intn(3), Delay: []int{0, 0, 2}[rng.Intn(3)], Strategy: []string{"AllSuccessful", "AnySuccessful"}[rng.Intn(2)],
 		JobPT: []int{-1, -1, 0, 3}[rng.Intn(4)], CfgPT: []int{-1, 0, 4}[rng.Intn(3)], JobTTL: []int{-1, 0, 4}[rng.Intn(3)], CfgTTL: []int{-1, 6}[rng.Intn(2)],
 		CfgFD: []int{-1, 0, 3}[rng.Intn(3)], Forbid: rng.Intn(6) == 0, Foreign: rng.Intn(10) == 0, PodLagFree: skew, Fresh: fresh,
-		Slow: rng.Intn(3) == 0, Flaky: rng.Intn(4) == 0, Hold: rng.Intn(5) == 0, ForeignBy: []string{"", "job", "none"}[rng.Intn(3)]}
+		Slow: rng.Intn(3) == 0, Flaky: rng.Intn(4) == 0, Hold: rng.Intn(5) == 0, ForeignLag: rng.Intn(2) == 0, ForeignBy: []string{"", "job", "none"}[rng.Intn(3)]}
 	o.Par = o.N > 1 || rng.Intn(2) == 0
 	return o
 }
